@@ -3,7 +3,7 @@
    construct / exhausted fuel halts it (like break_flag), so errors propagate to the result. *)
 From Sakura.Model Require Import Base Cursor Length Event Song Token LoopMachine LexCore Tie RunRsv.
 From Sakura.Model Require Reserve.
-From Sakura.Model Require Utf8.
+From Sakura.Model Require Utf8 F32.
 From Sakura.Model Require Cmd.   (* the event shapes of the command arms (property C15): used qualified *)
 From Sakura.Gen Require Import Messages.
 From Coq Require Import String.
@@ -135,6 +135,38 @@ Definition tempo_change (s : song) (tempo : Z) : song :=
   let e := ev_meta (tr_timepos (cur_track s)) 255 81 3
                    [as_u8 (Z.land (Z.shiftr mpq 16) 255); as_u8 (Z.land (Z.shiftr mpq 8) 255); as_u8 (Z.land mpq 255)] in
   upd_cur (s_set_time s tempo (s_timesig_frac s) (s_timesig_deno s) (s_measure_shift s)) (fun t => tr_push_event t e).
+
+(* tempo_change_a_to_b: one tempo event every sixteenth note, interpolated in f32
+     v = (a as f32) + (width as f32) * (i as f32 / step_cnt as f32);  tempo_change(song, v as isize);  timepos += step
+   then the target tempo at timepos + len; the pointer is put back.
+   `step` is timebase * 4 / 16: the time base is clamped to 48..32767 where it is set (read_timebase), so the divisor is not 0
+   in any song reached from a source (PipelineP.dims_inv); a song with a time base below 4 is outside the model. *)
+Definition tempo_ramp_value (a width i n : Z) : Z :=
+  F32.f32_to_Z (F32.f32_add (F32.f32_of_Z a) (F32.f32_mul (F32.f32_of_Z width) (F32.f32_div (F32.f32_of_Z i) (F32.f32_of_Z n)))).
+Fixpoint tempo_ramp_loop (s : song) (a width step step_cnt : Z) (idx : list Z) : song :=
+  match idx with
+  | [] => s
+  | i :: r =>
+      let s1 := tempo_change s (tempo_ramp_value a width i step_cnt) in
+      tempo_ramp_loop (upd_cur s1 (fun t => tr_set_timepos t (tr_timepos t + step))) a width step step_cnt r
+  end.
+Definition tempo_change_a_to_b (s : song) (a b len : Z) : res song :=
+  let step := Z.quot (s_timebase s * 4) 16 in
+  if step =? 0 then Unsupported U_RUN_SIZE
+  else if RAMP_MAX <? len then Unsupported U_RUN_LOOPCOUNT        (* a ramp beyond any reasonable size *)
+  else
+    let step_cnt := Z.quot len step in
+    let timepos := tr_timepos (cur_track s) in
+    let s1 := tempo_ramp_loop s a (b - a) step step_cnt (Reserve.zrange step_cnt) in
+    let s2 := tempo_change (upd_cur s1 (fun t => tr_set_timepos t (timepos + len))) b in
+    Ok (upd_cur s2 (fun t => tr_set_timepos t timepos)).
+(* the TempoChange arm: 3 arguments a -> b over len, 2 arguments from the current tempo, otherwise the first argument *)
+Definition exec_tempo_change (s : song) (a : Z) (rest : list Z) : res song :=
+  match rest with
+  | [b; len] => tempo_change_a_to_b s a b len
+  | [len] => tempo_change_a_to_b s (s_tempo s) a len
+  | _ => Ok (tempo_change s a)
+  end.
 
 Definition exec_time_signature (s : song) (args : list Z) : song :=
   match args with
@@ -332,6 +364,7 @@ Section Exec.
     | TPort v =>
         (* trk.port = port (a field nothing reads); FF 21 01 <port as u8> at the pointer of the current track *)
         Ok (add_events s (fun tp _ => Cmd.cmd_port tp v))
+    | TTempoChange a rest => exec_tempo_change s a rest
     end.
 
   Definition step_tok (t : tok) (s : res song) : res song := do sg <- s; step_song t sg.
